@@ -1544,7 +1544,10 @@ def _run(ctx):
                 "positional), head defaults/keywords, unknown axis names; look-alike ID texts and "
                 "core.tricky_unknown_ids; one predicate function object re-used across tables; receivers left in a "
                 "random internal layout by core.poke_layout (about a third of all cases); tables with one empty axis by "
-                "every route x head sizes below/equal/above the populated axis, filter and remove_empty on both axes. non-trivial = table with >= 2 cells / matrix with >= 1 vector; "
+                "every route x head sizes below/equal/above the populated axis, filter and remove_empty on both axes; "
+                "every stream also runs on partly annotated axes and on tables whose axes share names (vary_spec); "
+                "NFC/NFD twin IDs, nasty texts as IDs and metadata values, binary64 edge values, 520-600-ID axes, "
+                "decorated / re-entrant predicates, warnings as errors, argument collection untouched. non-trivial = table with >= 2 cells / matrix with >= 1 vector; "
                 "distinct = distinct (receiver recipe, request, implementation)")
     ctx.trusted = ["scipy tocsr()/tocsc()/sort_indices()/transpose/toarray are external: the layout handed to the "
                    "model is read from scipy, sort_indices is modelled by its contract (sortIndices)",
